@@ -52,12 +52,15 @@ const (
 	mWrongType
 	mNoQuestion
 	mShort
+	mWrongNameTC
+	mWrongTypeTC
+	mNoQuestionTC
 	mSilent
 	mClosed
 	nModes
 )
 
-var modeNames = [...]string{"up", "upcase", "trunc", "servfail", "wrongid", "wrongname", "wrongtype", "noquestion", "short", "silent", "closed"}
+var modeNames = [...]string{"up", "upcase", "trunc", "servfail", "wrongid", "wrongname", "wrongtype", "noquestion", "short", "wrongname+tc", "wrongtype+tc", "noquestion+tc", "silent", "closed"}
 
 func (m mode) String() string { return modeNames[m] }
 
@@ -138,16 +141,24 @@ func buildReply(m mode, req *dns.Msg, netw string, ident net.IP) []byte {
 		resp.Rcode = dns.RcodeServerFailure
 	case mWrongID:
 		resp.Id = req.Id ^ 0x5a5a
-	case mWrongName:
+	case mWrongName, mWrongNameTC:
 		resp.Question[0].Name = "x-" + q.Name
-	case mWrongType:
+	case mWrongType, mWrongTypeTC:
 		if q.Qtype == dns.TypeA {
 			resp.Question[0].Qtype = dns.TypeAAAA
 		} else {
 			resp.Question[0].Qtype = dns.TypeA
 		}
-	case mNoQuestion:
+	case mNoQuestion, mNoQuestionTC:
 		resp.Question = nil
+	}
+	if m == mWrongNameTC || m == mWrongTypeTC || m == mNoQuestionTC {
+		// right ID, TC bit set, question mismatching or missing, on both
+		// transports; the answer is recognisable (third octet +20)
+		resp.Truncated = true
+		ip := append(net.IP(nil), ident.To4()...)
+		ip[2] += 20
+		resp.Answer[0].(*dns.A).A = ip
 	}
 	b, err := resp.Pack()
 	if err != nil {
@@ -468,6 +479,7 @@ type stepSpec struct {
 	Name  string   `json:"name,omitempty"`
 	Qtype uint16   `json:"qtype,omitempty"`
 	ID    uint16   `json:"id,omitempty"`
+	Ctx   string   `json:"ctx,omitempty"`   // "refresh": "short" = context deadline 60 ms (shorter than the upstream timeout), "cancel" = cancelled after 50 ms
 	Count int      `json:"count,omitempty"` // "burst": number of queries b<k>.<name>; every active main must be chosen at least once
 }
 
@@ -484,9 +496,9 @@ type caseSpec struct {
 
 var backoffs = []time.Duration{0, 450 * time.Millisecond, 750 * time.Millisecond, time.Hour}
 
-var mainWeights = map[mode]int{mUp: 30, mUpCase: 8, mTrunc: 8, mServfail: 10, mWrongID: 5, mWrongName: 5, mWrongType: 5, mNoQuestion: 4, mShort: 5, mSilent: 7, mClosed: 13}
-var fbWeights = map[mode]int{mUp: 45, mUpCase: 5, mTrunc: 5, mServfail: 8, mWrongID: 4, mWrongName: 3, mWrongType: 3, mNoQuestion: 2, mShort: 3, mSilent: 7, mClosed: 15}
-var failingModes = []mode{mServfail, mWrongID, mWrongName, mWrongType, mNoQuestion, mShort, mSilent, mClosed, mClosed}
+var mainWeights = map[mode]int{mUp: 30, mUpCase: 8, mTrunc: 8, mServfail: 10, mWrongID: 5, mWrongName: 5, mWrongType: 5, mNoQuestion: 4, mShort: 5, mWrongNameTC: 4, mWrongTypeTC: 4, mNoQuestionTC: 3, mSilent: 7, mClosed: 13}
+var fbWeights = map[mode]int{mUp: 45, mUpCase: 5, mTrunc: 5, mServfail: 8, mWrongID: 4, mWrongName: 3, mWrongType: 3, mNoQuestion: 2, mShort: 3, mWrongNameTC: 3, mWrongTypeTC: 3, mNoQuestionTC: 2, mSilent: 7, mClosed: 15}
+var failingModes = []mode{mServfail, mWrongID, mWrongName, mWrongType, mNoQuestion, mShort, mWrongNameTC, mWrongTypeTC, mNoQuestionTC, mSilent, mClosed, mClosed}
 
 func draw(rng *rand.Rand, w map[mode]int) mode {
 	tot := 0
@@ -544,8 +556,12 @@ func genCase(r *vkit.Run, stream string, idx, nSteps int) caseSpec {
 		}
 	}
 	qn := 0
+	nextCtx := ""
 	add := func(op string, wait string) {
 		st := stepSpec{Op: op}
+		if op == "refresh" {
+			st.Ctx, nextCtx = nextCtx, ""
+		}
 		if canWait {
 			st.Wait = wait
 		}
@@ -645,7 +661,44 @@ func genCase(r *vkit.Run, stream string, idx, nSteps int) caseSpec {
 			add("query", "")
 		}
 	}
-	if tpl == 1 || tpl == 2 {
+	ctxTpl := tpl == 2 && cs.F > 0 && rng.IntN(3) != 0
+	if ctxTpl {
+		// a health-check round whose context ends before the probe of a silent
+		// main does: the probe failed, the back-off starts.
+		for i := 0; i < cs.M; i++ {
+			cur[i] = []mode{mUp, mUp, mUpCase, mTrunc}[rng.IntN(4)]
+		}
+		add("query", "")
+		sil := rng.IntN(cs.M)
+		for i := 0; i < cs.M; i++ {
+			if i == sil || rng.IntN(10) < 6 {
+				cur[i] = mSilent
+			} else {
+				cur[i] = failingModes[rng.IntN(len(failingModes))]
+			}
+		}
+		nextCtx = []string{"short", "cancel"}[rng.IntN(2)]
+		add("refresh", "")
+		perturbFbs(20)
+		add("query", "")
+		for i := 0; i < cs.M; i++ {
+			if rng.IntN(5) != 0 {
+				cur[i] = []mode{mUp, mUpCase, mTrunc}[rng.IntN(3)]
+			}
+		}
+		add("refresh", "") // clearly inside the back-off, generous context
+		add("query", "")
+		add("query", "")
+		for i := 0; i < cs.M; i++ {
+			if rng.IntN(5) != 0 {
+				cur[i] = mUp
+			}
+		}
+		add("refresh", "beyond")
+		add("query", "")
+		add("query", "")
+	}
+	if (tpl == 1 || tpl == 2) && !ctxTpl {
 		// template: fail -> detect -> (recover) -> refresh inside back-off ->
 		// refresh beyond back-off -> traffic returns; random details.
 		for i := 0; i < cs.M; i++ {
@@ -731,6 +784,17 @@ func genCase(r *vkit.Run, stream string, idx, nSteps int) caseSpec {
 		case x < 56:
 			add("query", "")
 		case x < 80:
+			// now and then with a context that ends before a silent main's
+			// probe does; only when no main can answer, so that the result
+			// does not depend on the order in which the mains are probed
+			allFail, anySilent := true, false
+			for i := 0; i < cs.M; i++ {
+				allFail = allFail && !cur[i].probeOK()
+				anySilent = anySilent || cur[i] == mSilent
+			}
+			if cs.F > 0 && allFail && anySilent && rng.IntN(2) == 0 {
+				nextCtx = []string{"short", "cancel"}[rng.IntN(2)]
+			}
 			add("refresh", "")
 		case x < 88:
 			add("refresh", "part")
@@ -989,9 +1053,9 @@ func identify(resp *dns.Msg) (role string, idx int) {
 		if a, ok := rr.(*dns.A); ok {
 			ip := a.A.To4()
 			if ip != nil && ip[0] == 10 && ip[1] == 17 {
-				if ip[2] == 1 || ip[2] == 11 {
+				if ip[2] == 1 || ip[2] == 11 || ip[2] == 21 {
 					return "main", int(ip[3])
-				} else if ip[2] == 2 || ip[2] == 12 {
+				} else if ip[2] == 2 || ip[2] == 12 || ip[2] == 22 {
 					return "fb", int(ip[3])
 				}
 			}
@@ -1419,10 +1483,24 @@ func runCase(r *vkit.Run, cs caseSpec) {
 			fx.newHandler(tag, backoff, 5*time.Second)
 			c1 = time.Now()
 		case "refresh":
-			ctx, cancel := context.WithTimeout(context.Background(), 10*time.Second)
+			var ctx context.Context
+			var cancel context.CancelFunc
+			var tm *time.Timer
+			switch st.Ctx {
+			case "short":
+				ctx, cancel = context.WithTimeout(context.Background(), 60*time.Millisecond)
+			case "cancel":
+				ctx, cancel = context.WithCancel(context.Background())
+				tm = time.AfterFunc(50*time.Millisecond, cancel)
+			default:
+				ctx, cancel = context.WithTimeout(context.Background(), 10*time.Second)
+			}
 			c0 = time.Now()
 			callErr = fx.h.Refresh(ctx)
 			c1 = time.Now()
+			if tm != nil {
+				tm.Stop()
+			}
 			cancel()
 		case "query":
 			req, rw, callErr, c0, c1 = fx.doQuery(st.Name, st.Qtype, st.ID)
@@ -1830,8 +1908,8 @@ func runConcurrent(r *vkit.Run, idx int) {
 		active[i] = true
 	}
 	// replying modes only for mains here (no timeouts while goroutines compete)
-	ccMain := []mode{mUp, mUp, mUpCase, mTrunc, mServfail, mWrongID, mWrongName, mClosed, mClosed}
-	ccFb := []mode{mUp, mUp, mUp, mTrunc, mServfail, mClosed, mWrongType}
+	ccMain := []mode{mUp, mUp, mUpCase, mTrunc, mServfail, mWrongID, mWrongName, mWrongNameTC, mNoQuestionTC, mClosed, mClosed}
+	ccFb := []mode{mUp, mUp, mUp, mTrunc, mServfail, mClosed, mWrongType, mWrongTypeTC}
 	for rd := 0; rd < rounds; rd++ {
 		modes := make([]mode, M+F)
 		ss := roundSpec{}
@@ -2059,6 +2137,10 @@ func TestCheck(t *testing.T) {
 		"garbage_rejected:wrongtype":                        15,
 		"garbage_rejected:noquestion":                       10,
 		"garbage_rejected:short":                            10,
+		"garbage_rejected:wrongname+tc":                     10,
+		"garbage_rejected:wrongtype+tc":                     10,
+		"garbage_rejected:noquestion+tc":                    8,
+		"backoff_held_after_context_ended_probe":            8,
 		"queries_failover_after_network_error":              70,
 		"queries_fallback_no_active_main":                   120,
 		"fallback_also_failed_error":                        40,
